@@ -142,9 +142,22 @@ def _device_cases(tier, **fixed):
         yield ("raw_2byte", False, v)
     for r, g, b in itertools.product((0, 1, 127, 255), repeat=3):
         yield ("light_rgb", False, (r, g, b))
+    for v in range(0, 256, 1 if dense else 5):
+        yield ("light_tunable_white", False, v)
+    for v in (0, 1, 2000, 2700, 4000, 6500, 65535):
+        yield ("light_color_temperature", False, v)
+    for x, y, br in itertools.product((0.0, 0.25, 0.5, 1.0), (0.0, 0.3, 1.0), (0, 1, 128, 255)):
+        yield ("light_xyy", False, ((x, y), br))
+    for v in (True, False, True):
+        yield ("fan_oscillation", False, v)
+        yield ("climate_swing", False, v)
+    for s_ in range(0, 101, 1 if dense else 7):
+        yield ("climate_fan_percent", False, s_)
+    for s_ in range(0, 4):
+        yield ("climate_fan_step", False, s_)
 
 
-@standin("C39", cases=_device_cases, kind="enum-native", exhaustive=False, bound="real devices on a real XKNX object (no interface): Switch and Cover (position, angle) plain and inverted, Light brightness and RGB colour, Fan percent and 3-step mode, Climate setpoint shift and target temperature through a setpoint shift (steps 0.05/0.1/0.125/0.2/0.25/0.5/1.0, every shift of -127..127 steps within +-20 K), NumericValue temperature / percent, RawValue; every 1st (thorough) or 3rd-5th (quick) value of each integer range; the setter's telegrams are processed as outgoing and the reported state compared with the request (equal, or within half a step of the datapoint)")
+@standin("C39", cases=_device_cases, kind="enum-native", exhaustive=False, bound="real devices on a real XKNX object (no interface): Switch and Cover (position, angle) plain and inverted, Light brightness / RGB / tunable white / colour temperature / xyY colour, Fan percent, 3-step mode and oscillation, Climate fan speed and swing, Climate setpoint shift and target temperature through a setpoint shift (steps 0.05/0.1/0.125/0.2/0.25/0.5/1.0, every shift of -127..127 steps within +-20 K), NumericValue temperature / percent, RawValue; every 1st (thorough) or 3rd-5th (quick) value of each integer range; the setter's telegrams are processed as outgoing and the reported state compared with the request (equal, or within half a step of the datapoint)")
 def device_reports_what_was_requested(kind, opt, v):
     from xknx import XKNX
     from xknx.devices import Climate, Cover, Fan, Light, NumericValue, RawValue, Switch
@@ -194,6 +207,54 @@ def device_reports_what_was_requested(kind, opt, v):
             await d.set_speed(v)
             assert _drain(xknx) >= 1
             assert d.current_speed == v, (kind, v, d.current_speed)
+        elif kind == "light_tunable_white":
+            d = Light(xknx, "l", group_address_switch="1/1/4", group_address_tunable_white="1/1/8")
+            xknx.devices.async_add(d)
+            await d.set_tunable_white(v)
+            assert _drain(xknx) >= 1
+            assert d.current_tunable_white == v, (kind, v, d.current_tunable_white)
+        elif kind == "light_color_temperature":
+            d = Light(xknx, "l", group_address_switch="1/1/4", group_address_color_temperature="1/1/9")
+            xknx.devices.async_add(d)
+            await d.set_color_temperature(v)
+            assert _drain(xknx) >= 1
+            assert d.current_color_temperature == v, (kind, v, d.current_color_temperature)
+        elif kind == "light_xyy":
+            from xknx.dpt.dpt_242 import XYYColor
+
+            d = Light(xknx, "l", group_address_switch="1/1/4", group_address_xyy_color="1/1/10")
+            xknx.devices.async_add(d)
+            await d.set_xyy_color(XYYColor(color=v[0], brightness=v[1]))
+            assert _drain(xknx) >= 1
+            got = d.current_xyy_color
+            assert got is not None and got.brightness == v[1], (kind, v, got)
+            assert abs(got.color[0] - v[0][0]) <= 1 / 65535 and abs(got.color[1] - v[0][1]) <= 1 / 65535, (kind, v, got)
+        elif kind == "fan_oscillation":
+            d = Fan(xknx, "f", group_address_speed="1/1/7", group_address_oscillation="1/1/11")
+            xknx.devices.async_add(d)
+            await d.set_oscillation(v)
+            assert _drain(xknx) >= 1
+            assert d.current_oscillation is v, (kind, v, d.current_oscillation)
+        elif kind == "climate_swing":
+            d = Climate(xknx, "k", group_address_swing="1/2/5")
+            xknx.devices.async_add(d)
+            await d.set_swing(v)
+            assert _drain(xknx) >= 1
+            assert d.current_swing is v, (kind, v, d.current_swing)
+        elif kind == "climate_fan_percent":
+            d = Climate(xknx, "k", group_address_fan_speed="1/2/6")
+            xknx.devices.async_add(d)
+            await d.set_fan_speed(v)
+            assert _drain(xknx) >= 1
+            assert d.current_fan_speed == v, (kind, v, d.current_fan_speed)
+        elif kind == "climate_fan_step":
+            from xknx.devices.fan import FanSpeedMode
+
+            d = Climate(xknx, "k", group_address_fan_speed="1/2/6", fan_speed_mode=FanSpeedMode.STEP)
+            xknx.devices.async_add(d)
+            await d.set_fan_speed(v)
+            assert _drain(xknx) >= 1
+            assert d.current_fan_speed == v, (kind, v, d.current_fan_speed)
         elif kind in ("climate_shift", "climate_target_via_shift"):
             step = opt
             d = Climate(xknx, "k", group_address_target_temperature_state="1/2/1", group_address_setpoint_shift="1/2/2", setpoint_shift_mode=SetpointShiftMode.DPT6010, temperature_step=step, setpoint_shift_min=-20, setpoint_shift_max=20)
